@@ -33,7 +33,10 @@ type mySQLUndoInsertExecutor struct {
 
 // newMySQLUndoInsertExecutor init
 func newMySQLUndoInsertExecutor(sqlUndoLog undo.SQLUndoLog) *mySQLUndoInsertExecutor {
-	return &mySQLUndoInsertExecutor{sqlUndoLog: sqlUndoLog}
+	return &mySQLUndoInsertExecutor{
+		sqlUndoLog:   sqlUndoLog,
+		BaseExecutor: &BaseExecutor{sqlUndoLog: sqlUndoLog, undoImage: sqlUndoLog.AfterImage},
+	}
 }
 
 // ExecuteOn execute insert undo logic
@@ -43,8 +46,13 @@ func (m *mySQLUndoInsertExecutor) ExecuteOn(ctx context.Context, dbType types.DB
 		return nil
 	}
 
-	if err := m.BaseExecutor.ExecuteOn(ctx, dbType, conn); err != nil {
+	// the inserted rows must still be what this branch wrote (or already gone)
+	ok, err := m.BaseExecutor.dataValidationAndGoOn(ctx, conn)
+	if err != nil {
 		return err
+	}
+	if !ok {
+		return nil
 	}
 
 	// build delete sql
